@@ -117,7 +117,14 @@ def call_unigen_python(input_file: Path, sample_count: int) -> str:
     
     if not sampling_set:
         sampling_set = list(range(1, num_vars + 1))
-    
+
+    # pyunigen ends the whole process when the formula is unsatisfiable, so find that out first
+    from pycryptosat import Solver
+    checker = Solver()
+    checker.add_clauses(clauses)
+    if not checker.solve()[0]:
+        return ""
+
     sampler = pyunigen.Sampler()
     for clause in clauses:
         sampler.add_clause(clause)
